@@ -454,6 +454,11 @@ func runC01(c *Ctx) {
 				if b1.Y == ci.Value() {
 					other = b1.X
 				}
+				if l, isLen := lenOf(other); isLen && (l == a[1] || sameVal(l, a[1])) {
+					// index + len(<the very text searched>): right after the placeholder by construction
+					okOff, why = true, ""
+					continue
+				}
 				if l, isLen := lenOf(other); !isLen || !sameVal(l, name) {
 					continue
 				}
